@@ -128,6 +128,10 @@ impl Prop for C06 {
                 ensure!(on_disk == ser_bytes(x.as_ref()), "serialize_to", "{}: file written by serialize_to differs from the in-memory serialization", x.type_name());
                 let loaded = x.from_file_same(&path).map_err(|e| crate::engine::Fail::new("load_from", format!("{}: load_from failed: {}", x.type_name(), e)))?;
                 ensure!(loaded.eq_dyn(x.as_ref()), "load_from", "{}: load_from(serialize_to(x)) != x", x.type_name());
+                // the library's public self-test states the same round trip: it must not panic on a value that just passed
+                if let Err((loc, msg)) = crate::engine::catch(|| x.lib_selftest(&format!("c06-selftest-{}", std::process::id()))) {
+                    return Err(crate::engine::Fail::new("serialize::test", format!("{}: serialize::test panicked at {}: {}", x.type_name(), loc, msg)));
+                }
                 Ok(())
             })();
             let _ = std::fs::remove_file(&path);
